@@ -94,6 +94,12 @@ theorem source_exception_paths_send_exactly_once :
     cannot be encoded therefore raises before anything is sent and is answered by the catch-all (model: `raises`). -/
 theorem source_readdir_count_matches_entries : readdirCountMatchesEntries = true := by decide
 
+/-- **The request id comes back as it went out, for every 32-bit value**: no response builder of the source uses
+    `Message.add()` / `add_adaptive_int()` — which encode an integer ≥ 0xff000000 as `ff` + mpint — so the id (and
+    every count and status code) is a plain 4-byte field (read from the AST every run).  The dispatcher model's
+    "same id" (`one_response_same_id_valid_type`, all `id : Nat`) stands on this for ids near 2^32. -/
+theorem source_responses_use_fixed_width_fields : responsesUseFixedWidthFields = true := by decide
+
 theorem source_else_branch_emits_status : ∀ ty ∈ elseTypes, ty = cmdStatus := by decide +kernel
 
 /-- The hand-written dispatcher only emits, for each command, a packet type that the source's branch for that
